@@ -59,6 +59,7 @@ def merge_cases(pid, tier, seed):
             else:
                 d['msg'], d['ro'] = gen_fuzz.mutate(rng, c['msg']), gen_fuzz.mutate(rng, c['ro'])
             d.pop('msg_text', None)
+            d.pop('ro_text', None)
             TJ.to_text(d['msg']), TJ.to_text(d['ro'])
         except Exception:  # noqa: BLE001 - a mutation that is not serialisable is dropped
             continue
@@ -72,6 +73,7 @@ def merge_cases(pid, tier, seed):
         d['ro'] = gen_fuzz.with_tails(c['ro'], 'r') if which < 0.8 else c['ro']
         d['msg'] = gen_fuzz.with_tails(c['msg'], 'm') if which > 0.4 else c['msg']
         d.pop('msg_text', None)
+        d.pop('ro_text', None)
         d['label'] = 'tails|' + c['label']
         d['family'] = 'tails'
         cases.append(d)
